@@ -34,7 +34,7 @@ PORTDS_SPEC = {
     "log_sync_interval": r"^as_log_2\(&?self\.config\.sync_interval\)$",
     "version_number": r"^2$",
     "minor_version_number": r"^cast<u8>\((discr\()?self\.config\.minor_ptp_version\)?\)$",
-    "delay_asymmetry": r"^into\(self\.config\.delay_asymmetry\)$",
+    "delay_asymmetry": r"^from\(self\.config\.delay_asymmetry\)$",
     "master_only": r"^self\.config\.master_only$",
 }
 GETTERS = {"default_ds": "default_ds", "current_ds": "current_ds", "parent_ds": "parent_ds",
